@@ -13,6 +13,12 @@ import sys
 HOME = os.path.dirname(os.path.dirname(os.path.abspath(__file__)))
 
 
+def _remove(d):
+    subprocess.run(["git", "-C", "/repo", "worktree", "remove", "--force", d], capture_output=True)
+    shutil.rmtree(d, ignore_errors=True)
+    subprocess.run(["git", "-C", "/repo", "worktree", "prune"], capture_output=True)
+
+
 def main():
     a = sys.argv[1:]
     tier = "quick"
@@ -24,23 +30,31 @@ def main():
     if a[0] == "--patch":
         patch, name, checks = a[1], a[2], a[3]
         mode = "patch"
+    elif a[0] == "--subs":  # JSON file: [[relative file, old, new], ...]
+        import json
+        subs, name, checks = json.load(open(a[1])), a[2], a[3]
+        mode = "subs"
     else:
         name, rel, old, new, checks = a[:5]
         mode = "subst"
     d = os.path.join(base, name)
-    shutil.rmtree(d, ignore_errors=True)
-    os.makedirs(d)
-    shutil.copytree("/repo/pipefunc", os.path.join(d, "pipefunc"), ignore=shutil.ignore_patterns("__pycache__"))
+    _remove(d)
+    os.makedirs(base, exist_ok=True)
+    # a detached git worktree of /repo's HEAD (pipefunc/_version.py asks versioningit for VCS metadata)
+    subprocess.run(["git", "-C", "/repo", "worktree", "add", "--detach", d, "HEAD"], check=True, capture_output=True)
     try:
         if mode == "subst":
-            p = os.path.join(d, rel)
-            s = open(p).read()
-            if s.count(old) != 1:
-                print(f"MUTATE-ERROR: pattern occurs {s.count(old)} times in {rel}")
-                return 3
-            open(p, "w").write(s.replace(old, new))
+            subs, mode = [[rel, old, new]], "subs"
+        if mode == "subs":
+            for rel, old, new in subs:
+                p = os.path.join(d, rel)
+                s = open(p).read()
+                if s.count(old) != 1:
+                    print(f"MUTATE-ERROR: pattern occurs {s.count(old)} times in {rel}")
+                    return 3
+                open(p, "w").write(s.replace(old, new))
         else:
-            r = subprocess.run(["patch", "-p1", "-d", d, "-i", os.path.abspath(patch)], capture_output=True, text=True)
+            r = subprocess.run(["git", "-C", d, "apply", os.path.abspath(patch)], capture_output=True, text=True)
             if r.returncode:
                 print("MUTATE-ERROR: patch failed", r.stdout, r.stderr)
                 return 3
@@ -52,14 +66,15 @@ def main():
                                timeout=3600)
             lines = [l for l in r.stdout.splitlines() if l.startswith(("VIOLATION", "  sig=", "INCONCLUSIVE", "HELD", "KNOWN"))]
             sigs = sorted({l.strip().split(" (")[0] for l in r.stdout.splitlines() if l.strip().startswith("sig=")})
-            verdict = "CAUGHT" if r.returncode == 1 else ("MISSED" if r.returncode == 0 else f"EXIT{r.returncode}")
+            has_v = any(l.startswith("VIOLATION property=") for l in r.stdout.splitlines())
+            verdict = "CAUGHT" if (r.returncode == 1 and has_v) else ("MISSED" if r.returncode == 0 else f"EXIT{r.returncode}")
             print(f"{name}: {c} -> {verdict} {sigs[:4]}")
-            if r.returncode not in (0, 1):
+            if verdict.startswith("EXIT"):
                 print(r.stdout[-1500:], r.stderr[-1500:])
-            rc = max(rc, 0 if r.returncode == 1 else 1)
+            rc = max(rc, 0 if verdict == "CAUGHT" else 1)
         return rc
     finally:
-        shutil.rmtree(d, ignore_errors=True)
+        _remove(d)
 
 
 if __name__ == "__main__":
